@@ -845,4 +845,204 @@ theorem dropC_eq_mapC (ty : BinOp) (hty : ty ≠ .div) (a : Arg) : dropC ty a = 
   | neg v ih => simp only [dropC, mapC, ih]
   | _ => rfl
 
+/-! ## the deep `neutralize` after a change at the holder of the chain constant -/
+
+theorem neutralize_bin_ok {op : BinOp} {x y : Arg} {c : Bool} {t : Arg} (h : neutralize (.bin op x y) = .ok (c, t)) :
+    ∃ c1 x' c2 y' c3, neutralize x = .ok (c1, x') ∧ neutralize y = .ok (c2, y') ∧
+      neutralizeRaw (.bin op x' y') = .ok (c3, t) := by
+  simp only [neutralize] at h
+  cases h1 : neutralize x with
+  | panic => simp [h1] at h
+  | err e => simp [h1] at h
+  | ok p =>
+    obtain ⟨c1, x'⟩ := p
+    cases h2 : neutralize y with
+    | panic => simp [h1, h2] at h
+    | err e => simp [h1, h2] at h
+    | ok q =>
+      obtain ⟨c2, y'⟩ := q
+      simp only [h1, h2] at h
+      cases h3 : neutralizeRaw (.bin op x' y') with
+      | panic => simp [h3] at h
+      | err e => simp [h3] at h
+      | ok w =>
+        obtain ⟨c3, a3⟩ := w
+        simp only [h3, Res.ok.injEq, Prod.mk.injEq] at h
+        obtain ⟨_, rfl⟩ := h
+        exact ⟨c1, x', c2, y', c3, rfl, rfl, h3⟩
+
+theorem neutralize_neg_ok {v : Arg} {c : Bool} {t : Arg} (h : neutralize (.neg v) = .ok (c, t)) :
+    ∃ c1 v' c3, neutralize v = .ok (c1, v') ∧ neutralizeRaw (.neg v') = .ok (c3, t) := by
+  simp only [neutralize] at h
+  cases h1 : neutralize v with
+  | panic => simp [h1] at h
+  | err e => simp [h1] at h
+  | ok p =>
+    obtain ⟨c1, v'⟩ := p
+    simp only [h1] at h
+    cases h3 : neutralizeRaw (.neg v') with
+    | panic => simp [h3] at h
+    | err e => simp [h3] at h
+    | ok w =>
+      obtain ⟨c3, a3⟩ := w
+      simp only [h3, Res.ok.injEq, Prod.mk.injEq] at h
+      obtain ⟨_, rfl⟩ := h
+      exact ⟨c1, v', c3, rfl, h3⟩
+
+section
+variable {isReg : Bytes → Bool}
+
+/-- what the transformation of the holder node has to deliver after the deep `neutralize` -/
+def HolderOK (isReg : Bytes → Bool) (ty : BinOp) (drop : Bool) (f : Arg → Arg) : Prop :=
+  ∀ op l r, NF isReg (.bin op l r) → (isC l = true ∨ isC r = true) →
+    ((chainOp op = true ∧ sameFam ty op = true) ∨ (op = .div ∧ ty = .div)) →
+    ∀ c h₂, neutralize (f (.bin op l r)) = .ok (c, h₂) →
+      NF isReg h₂ ∧ isBad h₂ = false ∧ isC h₂ = false ∧ (drop = true → fnd ty h₂ = false)
+
+theorem chainOp_mergeable {op : BinOp} (h : chainOp op = true) : mergeable op = true := by
+  cases op <;> simp [chainOp] at h <;> rfl
+
+theorem chainOp_ne_div {op : BinOp} (h : chainOp op = true) : op ≠ .div := by
+  intro e; subst e; simp [chainOp] at h
+
+theorem chainOp_ne_mod {op : BinOp} (h : chainOp op = true) : op ≠ .mod := by
+  intro e; subst e; simp [chainOp] at h
+
+theorem sameFam_additive {ty op : BinOp} (h : sameFam ty op = true) : additive op → additive ty := by
+  intro ha
+  rcases sameFam_cases h with rfl | ⟨h1, _⟩
+  · exact ha
+  · exact h1
+
+/-- **the deep `neutralize` of a tree changed at the holder of its chain constant is `NF`** -/
+theorem mapC_neutralize_NF (ty : BinOp) (drop : Bool) (f : Arg → Arg) (hf : HolderOK isReg ty drop f)
+    (hdrop : drop = true → ty ≠ .div) :
+    ∀ t, NF isReg t → (findC ty t false).isFound = true → ∀ c t₂, neutralize (mapC ty f t) = .ok (c, t₂) →
+      NF isReg t₂ ∧ isBad t₂ = false ∧ isC t₂ = false ∧ (drop = true → fnd ty t₂ = false) := by
+  intro t
+  induction t using Arg.ind with
+  | bin op l r ihl ihr =>
+    intro ht hfound c t₂ he
+    obtain ⟨hl, hr, hfix⟩ := NF_bin_inv ht
+    obtain ⟨_, _, hlr, _, hb, _⟩ := lfix_bin hfix
+    by_cases hch : chainOp op = true
+    · by_cases hsf : sameFam ty op = true
+      · simp only [findC, hch, hsf, if_true] at hfound
+        simp only [mapC, hch, hsf, if_true] at he
+        have hmb := hb (chainOp_mergeable hch)
+        rw [bothFound_eq _ _ _ (chainOp_ne_div hch)] at hmb
+        cases hcl : cval l with
+        | some a =>
+          simp only [hcl] at he
+          exact hf op l r ht (.inl (cval_some_isC hcl)) (.inl ⟨hch, hsf⟩) c t₂ he
+        | none =>
+          cases hcr : cval r with
+          | some b =>
+            simp only [hcl, hcr] at he
+            exact hf op l r ht (.inr (cval_some_isC hcr)) (.inl ⟨hch, hsf⟩) c t₂ he
+          | none =>
+            simp only [hcl, hcr] at he hfound
+            have hil : isC l = false := cval_none_iff.1 hcl
+            have hir : isC r = false := cval_none_iff.1 hcr
+            by_cases hfl : (findC ty l false).isFound = true
+            · simp only [hfl, if_true] at he
+              obtain ⟨c1, l₂, c2, r₂, c3, e1, e2, e3⟩ := neutralize_bin_ok he
+              rw [NF_neutralize hr] at e2
+              simp only [Res.ok.injEq, Prod.mk.injEq] at e2
+              obtain ⟨_, rfl⟩ := e2
+              obtain ⟨i1, i2, i3, i4⟩ := ihl hl hfl c1 l₂ e1
+              -- the rhs contributes no constant
+              have hfr : fnd op r = false := by
+                have : fnd op l = true := by
+                  unfold fnd; rw [← findC_sameFam hsf, hfl]; simp
+                rw [this] at hmb; simpa using hmb
+              have hnr := neutralizeRaw_bin_NF i1 hr (fun ⟨p, _⟩ => by rw [i3] at p; cases p)
+                (fun _ => by rw [bothFound_eq _ _ _ (chainOp_ne_div hch), hfr]; simp)
+                (fun e => absurd e (chainOp_ne_mod hch)) e3
+              have hnb : nb (.bin op l₂ r) = true :=
+                nb_bin.2 ⟨NF_nb i1, NF_nb hr, fun ⟨p, _⟩ => by rw [i3] at p; cases p⟩
+              refine ⟨hnr.1, hnr.2, (neutralizeRaw_nb hnb e3).2, fun hd => ?_⟩
+              exact neutralizeRaw_bin_fnd hr (sameFam_additive hsf) (i4 hd) (by rw [fnd_sameFam hsf]; exact hfr) e3
+            · simp only [hfl, if_false] at he
+              -- the constant is on the right
+              have hfr' : (findC ty r false).isFound = true := by
+                have hp := findC_ne_panic ty l (NF_nb hl) false
+                cases hq : findC ty l false with
+                | found a b => rw [hq] at hfl; simp [Find.isFound] at hfl
+                | panic => exact absurd hq hp
+                | none =>
+                  simp only [hq] at hfound
+                  rw [findC_isFound_inv] at hfound
+                  exact hfound
+              obtain ⟨c1, l₂, c2, r₂, c3, e1, e2, e3⟩ := neutralize_bin_ok he
+              rw [NF_neutralize hl] at e1
+              simp only [Res.ok.injEq, Prod.mk.injEq] at e1
+              obtain ⟨_, rfl⟩ := e1
+              obtain ⟨i1, i2, i3, i4⟩ := ihr hr hfr' c2 r₂ e2
+              have hfl2 : fnd op l = false := by
+                unfold fnd; rw [← findC_sameFam hsf]; simp [hil, hfl]
+              have hnr := neutralizeRaw_bin_NF hl i1 (fun ⟨_, q⟩ => by rw [i3] at q; cases q)
+                (fun _ => by rw [bothFound_eq _ _ _ (chainOp_ne_div hch), hfl2]; simp)
+                (fun e => absurd e (chainOp_ne_mod hch)) e3
+              have hnb : nb (.bin op l r₂) = true :=
+                nb_bin.2 ⟨NF_nb hl, NF_nb i1, fun ⟨_, q⟩ => by rw [i3] at q; cases q⟩
+              refine ⟨hnr.1, hnr.2, (neutralizeRaw_nb hnb e3).2, fun hd => ?_⟩
+              exact neutralizeRaw_bin_fnd i1 (sameFam_additive hsf) (by rw [fnd_sameFam hsf]; exact hfl2) (i4 hd) e3
+      · simp [findC, hch, hsf, Find.isFound] at hfound
+    · by_cases hdv : (op == .div) = true
+      · have hop : op = .div := by simpa using hdv
+        subst hop
+        by_cases hty : (ty == .div) = true
+        · have hty' : ty = .div := by simpa using hty
+          subst hty'
+          simp only [findC, hch, Bool.false_eq_true, if_false, hdv, hty, if_true] at hfound
+          simp only [mapC, hch, Bool.false_eq_true, if_false, hdv, hty, if_true] at he
+          cases hcl : cval l with
+          | some a =>
+            simp only [hcl] at he
+            exact hf .div l r ht (.inl (cval_some_isC hcl)) (.inr ⟨rfl, rfl⟩) c t₂ he
+          | none =>
+            cases hcr : cval r with
+            | some b =>
+              simp only [hcl, hcr] at he
+              exact hf .div l r ht (.inr (cval_some_isC hcr)) (.inr ⟨rfl, rfl⟩) c t₂ he
+            | none =>
+              simp only [hcl, hcr] at he hfound
+              obtain ⟨c1, l₂, c2, r₂, c3, e1, e2, e3⟩ := neutralize_bin_ok he
+              rw [NF_neutralize hr] at e2
+              simp only [Res.ok.injEq, Prod.mk.injEq] at e2
+              obtain ⟨_, rfl⟩ := e2
+              obtain ⟨i1, i2, i3, i4⟩ := ihl hl hfound c1 l₂ e1
+              have hir : isC r = false := cval_none_iff.1 hcr
+              have hnr := neutralizeRaw_bin_NF i1 hr (fun ⟨p, _⟩ => by rw [i3] at p; cases p)
+                (fun _ => by unfold bothFound; rw [mergeR_div_isFound, hir]; simp)
+                (fun e => by cases e) e3
+              have hnb : nb (.bin .div l₂ r) = true :=
+                nb_bin.2 ⟨NF_nb i1, NF_nb hr, fun ⟨p, _⟩ => by rw [i3] at p; cases p⟩
+              exact ⟨hnr.1, hnr.2, (neutralizeRaw_nb hnb e3).2, fun hd => absurd rfl (hdrop hd)⟩
+        · simp [findC, hch, hdv, hty, Find.isFound] at hfound
+      · simp [findC, hch, hdv, Find.isFound] at hfound
+  | neg v ih =>
+    intro ht hfound c t₂ he
+    obtain ⟨hv, hbad, hcv, _⟩ := NF_neg_inv ht
+    by_cases hty : isAddSub ty = true
+    · simp only [findC, hty, if_true] at hfound
+      rw [findC_isFound_inv] at hfound
+      simp only [mapC, hty, if_true] at he
+      obtain ⟨c1, v₂, c3, e1, e3⟩ := neutralize_neg_ok he
+      obtain ⟨i1, i2, i3, i4⟩ := ih hv hfound c1 v₂ e1
+      have hnr := neutralizeRaw_neg_NF i1 i3 i2 e3
+      have hadd : additive ty := by cases ty <;> simp [isAddSub, additive] at hty ⊢
+      exact ⟨hnr.1, hnr.2, (neutralizeRaw_neg_nb (NF_nb i1) i3 e3).2, fun hd => neutralizeRaw_neg_fnd i1 hadd (i4 hd) e3⟩
+    · simp [findC, hty, Find.isFound] at hfound
+  | const v => intro _ hfound; simp [findC, Find.isFound] at hfound
+  | ident v => intro _ hfound; simp [findC, Find.isFound] at hfound
+  | str v => intro _ hfound; simp [findC, Find.isFound] at hfound
+  | not v _ => intro _ hfound; simp [findC, Find.isFound] at hfound
+  | addr v _ => intro _ hfound; simp [findC, Find.isFound] at hfound
+  | seq v => intro _ hfound; simp [findC, Find.isFound] at hfound
+  | func n v => intro _ hfound; simp [findC, Find.isFound] at hfound
+
+end
+
 end Trion.Simp
